@@ -104,6 +104,44 @@ def plan_c02(tier, seed):
                 assumptions=ASSUME_COMMON, minima={"cases": 500, "distinct_nontrivial": 300, "alloc_node": 10000, "alloc": 10000, "grow": 200})
 
 
+FAIL_KINDS = ["pool<node>/grow", "pool<array>/grow", "pool<small>/grow", "pool<node>/blk", "pool<small>/blk", "coll<node,log2>/grow",
+              "coll<array,identity>/grow", "coll<small,log2>/grow", "coll<array,log2>/grow", "stack/grow", "stack/blk"]
+
+
+def plan_c03(tier, seed):
+    q = tier == "quick"
+    cfgs = Q_CFGS if q else ["rel", "rwd", "dbg", "chk"]
+    jobs = []
+    nf = _scale(tier, 16, 80)
+    nm = _scale(tier, 100, 1500)
+    for cfg in cfgs:
+        for k in FAIL_KINDS:
+            # quick: every k <= 12 and a seeded sample above; thorough: every k
+            extra = ["--maxk", "12"] if q else []
+            jobs += [Job("h_fail", cfg, "asan", "faults", k, c, ops=_scale(tier, 120, 250), extra=extra, cpu=600) for c in chunks(nf, 4 if q else 6)]
+            jobs += [Job("h_fail", cfg, "asan", "maxima", k, c, cpu=300) for c in chunks(nm, 50 if q else 150)]
+    # exhaustion of fixed sources (fixed_block_allocator, static storage, virtual_block_allocator, iteration regions, static_allocator)
+    n = _scale(tier, 40, 600)
+    ck = _scale(tier, 40, 100)
+    fixed = [k for k in POOL_KINDS if k.endswith(("fixed", "static", "virtual"))]
+    cfixed = [k for k in COLL_KINDS if k.endswith(("fixed", "static", "virtual"))]
+    jobs += pool_jobs(cfgs, ["walk", "phased"], n, 300, ck, kinds=fixed) + coll_jobs(cfgs, ["corner", "phased"], n // 2, 300, ck, kinds=cfixed) \
+        + stack_jobs(cfgs, ["walk"], n, 300, ck, kinds=["stack/fixed", "stack/static", "stack/virtual", "static_allocator"] + ITER_KINDS)
+    return dict(jobs=jobs, level="fault_enumeration",
+                rule="(faults) a seeded history per kind (three pools, four collections, two stacks over probe upstreams) is run once to count its "
+                     "upstream calls K, then once more for each k < K (quick: k <= 12 plus six seeded k above) with the upstream throwing at call k "
+                     "(std::bad_alloc and the library's out_of_memory alternate), constructors included; after the failure the same request is "
+                     "re-issued and the history continues under the shadow-heap and upstream-balance oracles. (maxima) 24 requests per case with "
+                     "size / count / alignment drawn from {max-1, max, max+1, 2*max+1, SIZE_MAX/2, SIZE_MAX, max+1..64} relative to the reported "
+                     "maxima, throwing and try_ interface: outcome classified by exception type, handler counters compared. (exhaustion) histories on "
+                     "fixed, static and virtual block sources, iteration regions and static_allocator until out_of_fixed_memory. non-trivial = a "
+                     "faults case, a maxima case with at least one refused request, or a history that exhausted its source or grew; distinct = "
+                     "FNV-1a of kind, configuration and operation sequence",
+                assumptions=ASSUME_COMMON + ["the byte size count*size of a request is representable in size_t (the interface multiplies the two)"],
+                minima={"cases": 500, "distinct_nontrivial": 300, "failures_fired": 600, "failures_survived": 200, "ctor_failures": 50,
+                        "outcome_bad_node_size": 500, "outcome_bad_alignment": 500, "outcome_null": 500, "out_of_memory_thrown": 500})
+
+
 def plan_c04(tier, seed):
     q = tier == "quick"
     cfgs = ["rwd", "dbg"] if q else ["rel", "rwd", "dbg", "dbg16", "chk"]
@@ -327,6 +365,7 @@ PLANS = {
     "C18": plan_c18,
     "C19": plan_c19,
     "C01": plan_c01,
+    "C03": plan_c03,
     "C02": plan_c02,
     "C04": plan_c04,
     "C05": plan_c05,
